@@ -34,7 +34,7 @@ class C07(PropBase):
                     yield dict(directed=directed, removal=removal, hist=h, family='int', functional=False)
 
     def n_random(self, tier):
-        return 1200 if tier == 'quick' else 100000
+        return 2400 if tier == 'quick' else 160000      # every second case is a readd_case
 
     def random_cases(self, rnd, n):
         for i in range(n):
@@ -70,6 +70,13 @@ class C07(PropBase):
                               [(rnd.choice(nodes), 11), (o[2], o[3]), (12, 13)]))
             if rnd.random() < 0.3:
                 h.insert(rnd.randint(0, len(h)), random_bulk(rnd, nodes + [10]))
+            if rnd.random() < 0.25:
+                # a bulk helper WITHOUT t (rejected): one to three nodes, some of them new -- nothing may be created
+                kind = rnd.choice(['path', 'star', 'cycle', 'from', 'fstar', 'fcycle'])
+                pool = nodes + [20, 21]
+                l = ([tuple(rnd.choice(pool) for _ in range(2)) for _ in range(rnd.randint(1, 2))] if kind == 'from'
+                     else [rnd.choice(pool) for _ in range(rnd.randint(1, 3))])
+                h.insert(rnd.randint(0, len(h)), ('bulk', 0, kind, None, None, l))
             yield c
 
     def readd_case(self, rnd):
